@@ -12,7 +12,7 @@ LEVEL = "exploration"
 RULE = ("one group of k identical files (k=2..4 quick, 2..5 thorough) at different nesting depths in two roots, every "
         "partition of the paths into hard-link sets, distinct (permuted) or tied timestamps; x every single priority "
         "(12) and ordered pairs of priorities x pattern sets {none, --name, --path, --keep-name, --keep-path, "
-        "--name + --keep-name} x n in {unset,1,2,3} given as -n or --rf-over; inheritance cases where the settings come "
+        "--name + --keep-name, brace alternations {a,b} in --keep-name / --name / --path} x n in {unset,1,2,3} given as -n or --rf-over; inheritance cases where the settings come "
         "only from the report header ({--isolate, -H, --isolate -H, --rf-over 2, --transform}; -H from the header with --isolate on the command line; --isolate on the command line with relative root spellings; relative roots in the header with the dedupe command started from another directory, also after `group --base-dir`); isolate roots holding several files with different times: every assignment of time ranks to 4 (thorough: 5) files x every attribute priority, --isolate inherited or given to the dedupe command; observed = files named by the "
         "--dry-run script (and, for a sample, the effect of a real run); oracle = reference selection written from the "
         "statement. Non-trivial = reference drops at least one file; distinct by (structure, times, options).")
@@ -34,6 +34,10 @@ PATTERN_SETS = [
     ("keep_path", ["--keep-path", "**/a/**"]),
     ("name_keep", ["--name", "f*", "--keep-name", "f2"]),
     ("two_names", ["--name", "f0", "--name", "f3"]),
+    # brace alternations: the comma belongs to the pattern
+    ("keep_brace", ["--keep-name", "f{0,2}"]),
+    ("name_brace", ["--name", "f{1,3,4}"]),
+    ("path_brace", ["--path", "**/{a,x}/**"]),
 ]
 # the op index mixes idx with idx // period so that the cases sampled for a real run (idx % 6 == 0, idx % 4 == 0)
 # still rotate through all four operations
@@ -224,13 +228,19 @@ def reference(report_paths, case, sc, opts):
             subs.sort(key=keyf[pr])
     import fnmatch
 
+    def braces(pat):
+        # one level of {a,b,c}
+        i, j = pat.find("{"), pat.find("}")
+        if i < 0 or j < i:
+            return [pat]
+        return [pat[:i] + alt + pat[j + 1:] for alt in pat[i + 1:j].split(",")]
+
     def name_match(pat, p):
-        return fnmatch.fnmatchcase(os.path.basename(p), pat)
+        return any(fnmatch.fnmatchcase(os.path.basename(p), x) for x in braces(pat))
 
     def path_match(pat, p):
-        # patterns used here: **/X/** only
-        mid = pat.strip("*").strip("/")
-        return ("/" + mid + "/") in p
+        # patterns used here: **/X/** only (X possibly a brace alternation)
+        return any(("/" + x.strip("*").strip("/") + "/") in p for x in braces(pat))
     pa = case["pat_args"]
     names = [pa[i + 1] for i in range(0, len(pa), 2) if pa[i] == "--name"]
     paths = [pa[i + 1] for i in range(0, len(pa), 2) if pa[i] == "--path"]
